@@ -198,6 +198,47 @@ def group_diffs(a, b, raw_events=None):
     return sorted(out)
 
 
+def describes(file_enc, have_enc):
+    """Does the encoded group `have_enc` (what the daemon holds) describe the group `file_enc`
+    (a fresh parse of the file as it is now)?  Every attribute must be equal, except that a log
+    file the *file* leaves Automatic may have any name.  Returns the list of differences."""
+    out = []
+    if file_enc['cls'] != have_enc['cls']:
+        out.append('<class>')
+    if file_enc['name'] != have_enc['name']:
+        out.append('name')
+    fa = dict((k, (kind, p)) for k, kind, p in file_enc['attrs'])
+    ha = dict((k, (kind, p)) for k, kind, p in have_enc['attrs'])
+    for k in sorted(set(fa) | set(ha)):
+        if k not in fa or k not in ha or fa[k][0] != ha[k][0]:
+            out.append(k)
+            continue
+        kind, pf = fa[k]
+        ph = ha[k][1]
+        if kind == 'procs':
+            if len(pf) != len(ph):
+                out.append('numprocs')
+                continue
+            for x, y in zip(pf, ph):
+                if x[0] != y[0]:
+                    out.append('proc:<class>')
+                dx, dy = dict(x[1]), dict(y[1])
+                for a in sorted(set(dx) | set(dy)):
+                    if a not in dx or a not in dy:
+                        out.append('proc:' + a)
+                    elif dx[a] is AUTO:
+                        if a not in LOGFILE_ATTRS and dy[a] is not AUTO:
+                            out.append('proc:' + a)
+                    elif dy[a] is AUTO or dx[a] != dy[a]:
+                        out.append('proc:' + a)
+        elif kind == 'sock':
+            if pf[0] != ph[0] or dict(pf[1]) != dict(ph[1]):
+                out.append(k)
+        elif pf != ph:
+            out.append(k)
+    return sorted(set(out))
+
+
 def events_only_reordered(a_cfg, b_cfg):
     """the two real pool configs subscribe to the same set of event types in a different list order"""
     ea, eb = getattr(a_cfg, 'pool_events', None), getattr(b_cfg, 'pool_events', None)
@@ -288,6 +329,14 @@ class RealWorld(object):
         from rpcstack import RpcStack
         self.stack = RpcStack(self.sup, [('supervisor', self.rpc)])
         return o.process_group_configs
+
+    def fresh_parse(self):
+        """the file as it is now, read by a ServerOptions of its own (nothing shared with the daemon)"""
+        from supervisor.options import ServerOptions
+        o = ServerOptions()
+        o.configfile = self.path
+        o.process_config(do_usage=False)
+        return list(o.process_group_configs)
 
     def cur_configs(self):
         return [g.config for g in self.sup.process_groups.values()]
